@@ -292,6 +292,7 @@ def _case_for_labels(labels_t, spin):
         "copy_at": st.sampled_from([None, None, 1, 2, 3] if spin else [None, None, None, 1, 2]),
         # refresh() is documented to be harmless at any time: the constraint history must survive it
         "refresh_at": st.sampled_from([None, None, None, 1, 2]),
+        "prelude": gen.pick((False, 9), (True, 1)),
     }).map(lambda s: _normalise(s, spin))
 
 
@@ -499,11 +500,29 @@ def _fmt_x(order, r, spin):
 
 
 def run(spec, rec, spin):
+    # whatever the library does to the process-wide warning filters stays in force for the rest of this case (as it
+    # would in a user's script) and is undone afterwards
+    with warnings.catch_warnings():
+        _run_sequence(spec, rec, spin)
+
+
+def _run_sequence(spec, rec, spin):
     import qubovert as qv
 
     model_kind = "PCSO" if spin else "PCBO"
     labels = list(spec["labels"])
     nx = len(labels)
+    if spec.get("prelude"):
+        # earlier in the same process the caller tried model descriptions that the library rejects (handled errors):
+        # nothing of that may linger
+        for bad in ({"type": model_kind, "terms": {}, "constraints": {"zz": [{}]}},
+                    {"type": model_kind, "terms": {(labels[0],): 1}, "constraints": {"le": [{"not a key": 1}]}},
+                    {"terms": {}}):
+            try:
+                qv.utils.create_from_info(bad)
+            except Exception:          # noqa  rejected, as it should be
+                pass
+        rec.add("prelude_rejected_descriptions")
     M = lib(gen.build, qv, model_kind, spec["base"], what="build_base")
     seen = {l for l in M.variables if _is_anc(l)}
     recorded = []                      # (rel, raw terms dict) in the order added
@@ -562,7 +581,10 @@ def run(spec, rec, spin):
         # a validity query before the model changes (anything remembered from it must not survive the change)
         lib(M.is_solution_valid, dict(xs[0]), what="is_solution_valid(before)")
         with warnings.catch_warnings(record=True) as caught:
-            warnings.simplefilter("always")
+            # "always" goes to the END of the filter list: a filter the library itself installed earlier in this case
+            # keeps its precedence
+            warnings.simplefilter("always", append=True)
+            filters_before = list(warnings.filters)
             G = None
             if via_update:
                 G = type(M)()
@@ -574,6 +596,12 @@ def run(spec, rec, spin):
                 classes.add("via_update")
             else:
                 lib(getattr(M, "add_constraint_%s_zero" % rel), P, what="add_constraint_%s_zero" % rel, **kwargs)
+            filters_added = [f for f in warnings.filters if f not in filters_before]
+        for f in reversed(filters_added):          # the recording context restored the list: put them back
+            warnings.filters.insert(0, f)
+        if filters_added:
+            warnings._filters_mutated()
+            classes.add("library_changed_warning_filters")
         msgs = [str(w.message) for w in caught if issubclass(w.category, qv.utils.QUBOVertWarning)]
         warned_unsat = any("cannot be satisfied" in m for m in msgs)
         warned_always = any("always satisfied" in m for m in msgs)
